@@ -772,6 +772,10 @@ def _join(classes):
 class _Alias:
     """Classifies expressions of one method: FRESH | STORED | FRAME | PROP | ("param", name) | ("unknown",)."""
 
+    # helpers of the class / the module whose RESULT is classified by reading their own returns (set by _identity)
+    helpers: dict[str, ast.FunctionDef] = {}
+    _active: list[str] = []
+
     def __init__(self, fn: ast.FunctionDef):
         self.fn = fn
         a = fn.args
@@ -853,6 +857,9 @@ class _Alias:
                         return self.cls(n.args[0], d) if (c is None or not _is_true(c)) else FRESH
                     return FRESH
                 return ("unknown",)
+            h = self._helper_result(n, d)
+            if h is not None:
+                return h
             if isinstance(f, ast.Attribute):
                 recv = f.value
                 if ast.unparse(f) in ("self.convert_df_to_array", "Charge.convert_array_to_df", "cls.convert_array_to_df",
@@ -873,6 +880,45 @@ class _Alias:
                 return ("unknown",)
             return ("unknown",)
         return ("unknown",)
+
+    def _helper_result(self, call: ast.Call, d: int):
+        """`self._h(..)` / `_h(..)` with `_h` a private helper of the class / module: the join of what its `return`s
+        are, a returned parameter standing for the argument it receives.  None = not such a helper."""
+        f = call.func
+        if isinstance(f, ast.Attribute) and isinstance(f.value, ast.Name) and f.value.id == "self":
+            key, skip = "self." + f.attr, 1
+        elif isinstance(f, ast.Name):
+            key, skip = f.id, 0
+        else:
+            return None
+        h = _Alias.helpers.get(key)
+        if h is None or key in _Alias._active or len(_Alias._active) > 4:
+            return None
+        a = h.args
+        if a.vararg or a.kwarg or any(isinstance(x, ast.Starred) for x in call.args) or any(
+                k.arg is None for k in call.keywords):
+            return ("unknown",)
+        pos = [x.arg for x in a.posonlyargs + a.args][skip:]
+        bound = dict(zip(pos, call.args))
+        for k in call.keywords:
+            bound[k.arg] = k.value
+        _Alias._active.append(key)
+        try:
+            sub = _Alias(h)
+            rets = [r for r in ast.walk(h) if isinstance(r, ast.Return)]
+            if not rets or any(r.value is None for r in rets):
+                return ("unknown",)
+            if any(c[0] == "param" or c == ("unknown",) for c, _ in sub.written()):
+                return ("unknown",)            # the helper writes into something it was given: not a pure producer
+            out = []
+            for r in rets:
+                c = sub.cls(r.value)
+                if c[0] == "param":
+                    c = self.cls(bound[c[1]], d) if c[1] in bound else ("unknown",)
+                out.append(c)
+            return _join(out)
+        finally:
+            _Alias._active.pop()
 
     # -- statements that write INTO an object ----------------------------------------------------------------
 
@@ -967,6 +1013,21 @@ def _identity(tree) -> dict:
     # private helper methods called as statements are read as part of their caller (every method is ALSO analysed
     # on its own, so a helper that keeps or writes one of its parameters is still reported)
     raw = [n for n in cands[0].body if isinstance(n, ast.FunctionDef)]
+    _Alias.helpers = {}
+    by_name: dict[str, list] = {}
+    for n in raw:
+        by_name.setdefault(n.name, []).append(n)
+    for name, fns in by_name.items():
+        if (len(fns) == 1 and name.startswith("_") and not name.startswith("__") and not fns[0].decorator_list
+                and fns[0].args.args and fns[0].args.args[0].arg == "self"):
+            _Alias.helpers["self." + name] = fns[0]
+    mod_fns: dict[str, list] = {}
+    for n in tree.body:
+        if isinstance(n, ast.FunctionDef):
+            mod_fns.setdefault(n.name, []).append(n)
+    for name, fns in mod_fns.items():
+        if len(fns) == 1 and not fns[0].decorator_list:
+            _Alias.helpers[name] = fns[0]
     methods = [inline_method_calls(cands[0], n) for n in raw]
     followed = sorted({h for fn in methods for h in getattr(fn, "c14_inlined", [])})
     res = dict(add=None, writes_arg=False, df_adopts=False, binds_param=False, _inlined_methods=followed)
@@ -1004,8 +1065,11 @@ def _identity(tree) -> dict:
             elif c == STORED and fn.name == "add_charge_array":
                 # in-place accumulation: `self._array += <argument>`, `self._array[...] += <argument>`,
                 # `self._array[...] = self._array + <argument>`, np.add(self._array, <argument>, out=self._array)
-                def stored_target(t):
-                    return _self_attr(t, ("_array",)) or (isinstance(t, ast.Subscript) and _self_attr(t.value, ("_array",)))
+                def stored_target(t, al=al):
+                    """self._array, a local alias of it, or a slice of either"""
+                    if isinstance(t, ast.Subscript):
+                        t = t.value
+                    return bool(_self_attr(t, ("_array",))) or (isinstance(t, ast.Name) and al.cls(t) == STORED)
 
                 if isinstance(node, ast.AugAssign) and isinstance(node.op, ast.Add) and stored_target(node.target):
                     if not _mentions(node.value, al):
